@@ -545,7 +545,14 @@ func init() {
 
 	register(&Prop{ID: "C17",
 		Gen: func(r *RNG, tier string, run int) *Trace {
-			return genDecoderTrace(r, dgen{nOps: 60, sizes: "any", malformed: 0.1, readBias: 9, resetW: 1})
+			g := dgen{nOps: 60, sizes: "any", malformed: 0.1, readBias: 9, resetW: 1, firstFault: -1}
+			if run%4 == 3 {
+				// calls stopped early by a writer error (also inside the chunked
+				// Write of oversize trailing literals): counts must still be exact
+				g.wfaults, g.retry, g.firstFault = true, 0.7, (run/4)%12
+				g.target = "decoder"
+			}
+			return genDecoderTrace(r, g)
 		},
 		Exec:     execDecoder("C17"),
 		NonTriv:  func(res *Result) bool { return pr(res, "decoder_shrink_inside_call") },
@@ -559,7 +566,9 @@ func init() {
 			if r.Chance(0.3) {
 				cls = "small"
 			}
-			return genDecoderTrace(r, dgen{target: "decoder", nOps: 30, sizes: "fit", readBias: 4, resetW: 1, wfaults: true, retry: 0.9, firstFault: run % 14, geomClass: cls})
+			// every third run: plain writes and trailing literals larger than the
+			// free space (Decoder.Write chunks them; sequences still fit)
+			return genDecoderTrace(r, dgen{target: "decoder", nOps: 30, sizes: "fit", readBias: 4, resetW: 1, wfaults: true, retry: 0.9, firstFault: run % 14, geomClass: cls, bigLits: run%3 == 2})
 		},
 		Exec: execDecoder("C18"),
 		NonTriv: func(res *Result) bool {
